@@ -339,8 +339,8 @@ func (sc *scanner) shapeFromCallers(a *access, depth int) shape {
 			}
 		}
 	}
-	if !found {
-		return shape{}
+	if !found || a.fd.assigned[a.base] > 0 {
+		return shape{} // not a parameter, or one that is assigned in the helper: it may name another object there
 	}
 	if sig, ok := a.fd.obj.Type().(*types.Signature); ok && !isRecv && sig.Variadic() && idx == sig.Params().Len()-1 {
 		return shape{}
@@ -397,6 +397,9 @@ func (sc *scanner) shapeFromCallers(a *access, depth int) shape {
 func (sc *scanner) shapeHere(a *access) shape {
 	if a.expr == nil || a.fd == nil {
 		return shape{}
+	}
+	if a.base != nil && a.fd.assigned[a.base] > 0 {
+		return shape{} // the variable is assigned again: it need not name the object whose channel / cell the shape is about
 	}
 	w := sc.helper(a)
 	levels, anc, child := climb(a.fd.parents, a.expr)
